@@ -1131,4 +1131,56 @@ Proof.
       * intros e He. cbn in He. rewrite Est in He. apply Hmono, H7, He.
 Qed.
 
+(* ------------------------------------------------------------------ resuming the top frame *)
+Definition aft_s2 (s : st) : st :=
+  let s1 := set_resps s (tl (resps s)) in
+  match exc_slot s1 with
+  | Some e => set_exc_slot (set_stashed s1 (Some e)) None
+  | None => s1
+  end.
+Definition aft_in (s : st) (r : resp) : input :=
+  match stashed (aft_s2 s), r with
+  | Some e, _ => Throw e
+  | None, RExn e => Throw e
+  | None, RVal v => Send v
+  end.
+Definition is_throw (i : input) : bool := match i with Throw _ => true | _ => false end.
+Definition aft_res (s2 : st) (thr : bool) (x : outcome (frame P) * list obs) : (st * ctl * list obs) + (st * list obs) :=
+  let '(o, po) := x in
+  match o with
+  | Yielded m f' => inl ((if thr then set_stashed (replace_top s2 f') None else replace_top s2 f'), CProcess m, po)
+  | Returned v =>
+      let s3 := pop_plan s2 in
+      match plans s3 with
+      | [] => inl (s3, CExit (XRet v), po)
+      | _ => inl ((if thr then set_stashed s3 (Some EStopIteration) else s3), CContinue false (RVal VNone), po)
+      end
+  | Raised e' =>
+      if is_Exception e' then
+        let s3 := pop_plan s2 in
+        match plans s3 with
+        | [] => inl (s3, CExit (XExn e'), po)
+        | _ => inl (set_stashed s3 (Some e'), CContinue false (RVal VNone), po)
+        end
+      else
+        match e' with
+        | ECancelled => inl (s2, CCancelled true, po)
+        | _ => inl (set_resps (replace_top s2 (FList [])) (RVal VNone :: resps s2), CExit (XExn e'), po)
+        end
+  end.
+
+Lemma aft_eq (s : st) r rest top pl : resps s = r :: rest -> plans s = top :: pl ->
+  dstep s CAfterSleep = aft_res (aft_s2 s) (is_throw (aft_in s r)) (frame_resume presume top (aft_in s r)).
+Proof.
+  intros Er Ep. unfold RE_Small.dstep, aft_in, aft_res, aft_s2. rewrite Er, Ep. cbn [tl].
+  set (s2 := match exc_slot (set_resps s rest) with
+             | Some e => set_exc_slot (set_stashed (set_resps s rest) (Some e)) None
+             | None => set_resps s rest
+             end).
+  destruct (stashed s2) eqn:Es; [|destruct r]; cbn [is_throw];
+    (match goal with |- context [frame_resume presume ?f ?i] => destruct (frame_resume presume f i) as [o0 po] end);
+    destruct o0; try reflexivity;
+    (match goal with |- context [is_Exception ?x] => destruct (is_Exception x) end); reflexivity.
+Qed.
+
 End Proofs.
